@@ -57,6 +57,14 @@ pub struct CUnrel(pub u32);
 pub struct CMap(pub u32, #[entities] pub Entity);
 #[derive(Event, Serialize, Deserialize, Clone, Debug)]
 pub struct CTrig(pub u32);
+/// A client event whose payload carries length-prefixed collections (sequence, string, map).
+#[derive(Event, Serialize, Deserialize, Clone, Debug, PartialEq)]
+pub struct CList(pub u32, pub Vec<u64>, pub String, pub std::collections::BTreeMap<u16, u16>);
+impl CList {
+    pub fn of(seq: u32) -> Self {
+        CList(seq, vec![seq as u64, u64::MAX, 0], format!("e{seq}"), [(1u16, 2u16), (seq as u16, 7)].into_iter().collect())
+    }
+}
 
 #[derive(Clone, Copy, Debug, PartialEq, Eq, PartialOrd, Ord, Hash, Serialize, Deserialize)]
 pub enum SK {
@@ -73,6 +81,8 @@ pub enum CK {
     Unrel,
     Map,
     Trig,
+    /// `CList` (registered last: the channel indices of the other kinds are unchanged)
+    List,
 }
 
 #[derive(Clone, Debug, Serialize, Deserialize, PartialEq)]
@@ -172,7 +182,17 @@ pub enum Step {
     VisBurst { client: usize, slot: usize, pattern: Vec<bool> },
     /// `early`: the mapping is registered a tick (or more) before the entity becomes visible to the client: the server entity
     /// starts without the replication marker (whitelist: marked but not yet shown); a later step makes it visible
-    PreSpawn { client: usize, slot: usize, kill: bool, gap: bool, #[serde(default)] early: bool },
+    PreSpawn {
+        client: usize,
+        slot: usize,
+        kill: bool,
+        gap: bool,
+        #[serde(default)]
+        early: bool,
+        /// in the same tick window point this slot's reference component at the new entity ("whatever else travels in the same tick")
+        #[serde(default)]
+        refer: Option<usize>,
+    },
     EmitS { kind: SK, mode: u8, target: usize, refslot: usize },
     EmitC { client: usize, kind: CK, refslot: usize },
     ServerFrame { tick: bool },
